@@ -78,7 +78,7 @@ class Statistics:
     def __mul__(self, other: Any) -> Statistics:
         if not np.isscalar(other):
             return INVALID_STATISTICS
-        other_scalar = cast(float, other)
+        other_scalar = float(cast(float, other))  # narrow numpy scalars would narrow the sums
         return dataclasses.replace(
             self,
             sum=self.sum * other_scalar,
